@@ -11,7 +11,7 @@
        ps = be n scr k | rb rrank rsize rdnum rdsize | ab arank asize adnum adsize | srank   vs = res ; a ; secret   out = res'
    2030 (exact operations only) / 2031 (any operation): straight-line program over a register file
        ps = be n scr base2k nregs nops srank | (rank size)*nregs | (opc d x y k)*nops          vs = regs... ; secret   out = regs'... *)
-From PV Require Import Base.MachineInt Model.Znx Model.Limbs Model.Flat Model.Ring Model.DftAbs Model.C08Oracle Model.C02Ops.
+From PV Require Import Base.MachineInt Model.Znx Model.Limbs Model.Flat Model.Ring Model.DftAbs Model.C02Ops.
 Open Scope Z_scope.
 
 Definition pz (ps : list Z) (i : nat) : Z := nth i ps 0.
@@ -108,13 +108,11 @@ Definition oracle_exact (n : nat) (s : list (list Z)) (opc k : Z) (res a b out :
   | None => 2
   end.
 
-(* value level.  valp: the polynomial of torus values of a column, scaled by 2^P;  VP: the phase of these values. *)
-Definition valp (P b : Z) (n : nat) (c : limbs) : list Z :=
-  map (fun t => val_scaled P b (map (fun l => nthZ l t) c)) (seq 0 n).
-Definition VP (P b : Z) (n : nat) (s : list (list Z)) (g : glwe) : list Z :=
-  padd (valp P b n (gcol g 0)) (psum n (map (fun i => pmul (nth i s []) (valp P b n (gcol g (S i)))) (seq 0 (length s)))).
 Definition l1 (p : list Z) : Z := fold_left (fun acc x => acc + Z.abs x) p 0.
+Definition all_hr (l : list Z) : bool := forallb (fun x => Z.abs x <=? 2 ^ 60) l.
 Definition glwe_hr (g : glwe) : bool := forallb (fun c => forallb all_hr c) (g_cols g).
+Fixpoint min_verdict (l : list Z) : Z :=
+  match l with [] => 1 | x :: t => let m := min_verdict t in if x =? 0 then 0 else if m =? 0 then 0 else if x =? 2 then 2 else m end.
 
 (* val(phase(out)) = keep * val(phase(res)) + sgn * 2^off * val(phase(a))  (mod 1)  up to an error polynomial
    e_0 + sum_i s_i * e_i with |e_c| <= one unit of out's last limb for every truncated column c:
@@ -130,7 +128,7 @@ Definition oracle_value (n : nat) (s : list (list Z)) (rb ab off keep sgn : Z) (
   let used := Nat.min (g_rank out) (length s) in
   let bound := if exact then 0 else unit * (1 + fold_left (fun acc i => acc + l1 (nth i s [])) (seq 0 used) 0) in
   obz (Nat.eqb (g_size out) (g_size res) && Nat.eqb (g_ncols out) (g_ncols res) &&
-       forallb (fun t => tor_abs P (nthZ R t - keep * nthZ R0 t - sgn * nthZ A t) <=? bound) (seq 0 n)).
+       forallb (fun t => tor_dist P (nthZ R t - keep * nthZ R0 t - sgn * nthZ A t) <=? bound) (seq 0 n)).
 
 Definition oracle_op (n : nat) (s : list (list Z)) (opc k : Z) (res a b out : glwe) : Z :=
   match opc with
